@@ -315,6 +315,14 @@ def _brew_mapping(ctx, f):
               f"models = {show(mt, 120)}", node=pc[0])
 
 
+def strip_growth(t):
+    while t[0] in ("mutsub", "mut", "store"):
+        t = t[1]
+    if t[0] == "sub":
+        return ("sub", strip_growth(t[1]), t[2])
+    return t
+
+
 def _call_args(prog, T, callee_qual, call):
     """formal parameter -> term of the actual argument"""
     cal = prog.func(callee_qual)
@@ -461,18 +469,30 @@ def _predict(ctx, f):
               "records their original row numbers under that value",
               f"returns {show(rt, 100)}; records "
               f"{[ast.unparse(a) for a in aug]}", node=giv.node)
-    body = [n for n in ast.walk(pf.node) if isinstance(n, ast.Call)
-            and isinstance(n.func, ast.Attribute)
-            and n.func.attr == "append"]
-    ok_p = bool(body) and all(
-        ast.unparse(b.func.value) == f"{p_scores}[{p_fold}]" for b in body) \
-        and any(ast.unparse(b.args[0]) in (
-            f"{p_model}.predict({p_pp})",
-            f"{p_model}.decision_function({p_pp})") for b in body)
+    from ..events import container_events
+    pT = Terms(DefUse(prog, pf))
+    pev = [e for e in container_events(pf.node, pT, CFG(pf.node))
+           if e.kind == "append" and len(e.args) == 1]
+    SLOT = ("sub", ("param", p_scores), ("param", p_fold))
+
+    def leaves(t):
+        if t[0] == "phi":
+            return [y for x in t[1] for y in leaves(x)]
+        if t[0] == "ifexp":
+            return leaves(t[2]) + leaves(t[3])
+        return [t]
+
+    vals = [lf for e in pev for lf in leaves(e.args[0])]
+    pred = [x for x in vals if x[0] == "mcall" and x[1] == (
+        "param", p_model) and x[2] in ("predict", "decision_function")
+        and x[3] == (("param", p_pp),)]
+    ok_p = bool(pev) and all(strip_growth(e.recv) == SLOT for e in pev) \
+        and bool(pred)
     ctx.check(ok_p, "C02b-predict-fold", pf,
               "predict_fold scores its slice with its model and appends to "
               "its own fold's list",
-              f"{[ast.unparse(b)[:80] for b in body]}", node=pf.node)
+              f"{[(show(e.recv, 40), show(e.args[0], 80)) for e in pev]}",
+              node=pf.node)
     # ---- d: fold-major concatenation, un-permuted by argsort of the
     # fold-major original row numbers
     ys = [n for n in ast.walk(f.node) if isinstance(n, ast.Yield)]
